@@ -162,6 +162,33 @@ fn key(r: &mut Rng) -> u64 {
     *r.pick(&[0u64, 1, 2, 3, 5, 9, 10, U32M])
 }
 
+// ---- Gauge / Meter (round 9)
+fn gen_gauge(r: &mut Rng) -> String {
+    let parent = if r.chance(1, 5) { "-".to_string() } else { format!("+ {}", if r.chance(1, 4) { edge64(r) } else { r.below(20) }) };
+    let cells: Vec<u64> = (0..r.below(4)).map(|_| if r.chance(1, 5) { edge64(r) } else { r.below(30) }).collect();
+    format!("{} {} {}", parent, arg_list(&cells), if r.chance(1, 4) { edge64(r) } else { r.below(60) })
+}
+fn gauge_from(a: &mut Args) -> (Gauge, Option<std::sync::Arc<Parent>>) {
+    let s = a.t[a.i].clone();
+    a.i += 1;
+    let keep = if s == "-" { None } else { Some(std::sync::Arc::new(Parent { base: a.u() })) };
+    let parent = match &keep {
+        None => std::sync::Weak::new(),
+        Some(p) => std::sync::Arc::downgrade(p),
+    };
+    let cells = a.list();
+    let cap = a.u();
+    (Gauge { parent, meter: std::sync::Mutex::new(Meter { cells, cap }) }, keep)
+}
+fn gauge_enc(g: &Gauge) -> String {
+    let p = match g.parent.upgrade() {
+        None => "none".to_string(),
+        Some(p) => format!("some({{{}}})", p.base),
+    };
+    let m = g.meter.lock().unwrap();
+    format!("{{{} {{{} {}}}}}", p, enc_list(&m.cells), m.cap)
+}
+
 pub(crate) fn table() -> Vec<F> {
     vec![
         F { key: "Fixture.Acc.apply", prop: "FIX", gen: |r| format!("{} {} {}", gen_acc(r), arg_list(&[r.below(5)][..r.below(2) as usize]), gen_change(r)),
@@ -321,5 +348,23 @@ pub(crate) fn table() -> Vec<F> {
         F { key: "Fixture.tagged", prop: "FIX",
             gen: |r| { let n = r.below(8); let b = gen_bytes(r, n); format!("{} {}", arg_list(&b), if r.chance(1, 5) { u64::MAX - 1 } else { r.below(6) }) },
             call: |a| { let b = bytes_from(a); let i = a.u() as usize; let (o, c) = tagged(&b, i); format!("ok ({},{})", l8(&o), l8(&c)) } },
+        // ---- round 9 (bfn): Weak / iter_mut / lock writes / impl Into / Box
+        F { key: "Fixture.Gauge.base_plus", prop: "FIX",
+            gen: |r| format!("{} {}", gen_gauge(r), if r.chance(1, 3) { edge64(r) } else { r.below(9) }),
+            call: |a| { let (g, _keep) = gauge_from(a); let d = a.u(); format!("ok {}", g.base_plus(d)) } },
+        F { key: "Fixture.Gauge.feed", prop: "FIX",
+            gen: |r| format!("{} {} {} {}", gen_gauge(r), r.below(4), if r.chance(1, 4) { edge64(r) } else { r.below(40) }, r.below(2)),
+            call: |a| { let (g, _keep) = gauge_from(a); let i = a.u() as usize; let x = a.u(); let manual = a.u() != 0;
+                        let ok = g.feed(i, x, manual); format!("ok ({},{})", gauge_enc(&g), ok) } },
+        F { key: "Fixture.Gauge.replace", prop: "FIX",
+            gen: |r| { let c: Vec<u64> = (0..r.below(4)).map(|_| r.below(50)).collect(); format!("{} {}", gen_gauge(r), arg_list(&c)) },
+            call: |a| { let (g, _keep) = gauge_from(a); let c = a.list(); let w = g.replace(c); format!("ok ({},{})", gauge_enc(&g), w) } },
+        F { key: "Fixture.Meter.clear", prop: "FIX",
+            gen: |r| { let c: Vec<u64> = (0..r.below(5)).map(|_| edge64(r)).collect(); format!("{} {}", arg_list(&c), r.below(100)) },
+            call: |a| { let mut m = Meter { cells: a.list(), cap: a.u() }; m.clear(); format!("ok {{{} {}}}", enc_list(&m.cells), m.cap) } },
+        F { key: "Fixture.tag_into", prop: "FIX", gen: |r| format!("{} {}", ["a", "node", "x9"][r.below(3) as usize], edge64(r)),
+            call: |a| { let p = a.t[a.i].clone(); a.i += 1; let n = a.u(); format!("ok {}", tag_into(p, n)) } },
+        F { key: "Fixture.boxed_inc", prop: "FIX", gen: |r| format!("{}", match r.below(4) { 0 => 0, 1 => u64::MAX, _ => r.below(9) }),
+            call: |a| { let x = a.u(); match boxed_inc(x) { Ok(b) => format!("ok {}", *b), Err(()) => "err ()".to_string() } } },
     ]
 }
